@@ -2,7 +2,7 @@
    the reference matching relation for modelrun_topic.  ExtrOcamlBasic only. *)
 From Coq Require Import ExtrOcamlBasic List NArith.
 From Coq.Strings Require Import Byte.
-From GM Require Import Codec.Packet Topic.MatchSpec Topic.Levels Topic.Trie Topic.TreeSpec.
+From GM Require Import Codec.Packet Base.Lin Topic.MatchSpec Topic.Levels Topic.Trie Topic.TreeSpec Topic.TreeLin Topic.Parse.
 Extraction Language OCaml.
 Separate Extraction
   Datatypes.length
@@ -14,4 +14,6 @@ Separate Extraction
   Trie.New Trie.apply_trie Trie.run_trie Trie.answer_trie Trie.SearchFirsts Trie.Shape Trie.abs Trie.prunedb
   Trie.Add Trie.Set_ Trie.Get Trie.Match Trie.MatchFirst Trie.Search Trie.SearchFirst Trie.All Trie.Count
   TreeSpec.apply_spec TreeSpec.run_spec TreeSpec.answer_okb TreeSpec.query_ok TreeSpec.op_ok
-  TreeSpec.s_get TreeSpec.s_match TreeSpec.s_search TreeSpec.s_all TreeSpec.s_count TreeSpec.s_shape TreeSpec.permb TreeSpec.first_okb.
+  TreeSpec.s_get TreeSpec.s_match TreeSpec.s_search TreeSpec.s_all TreeSpec.s_count TreeSpec.s_shape TreeSpec.permb TreeSpec.first_okb
+  TreeLin.tree_lin_verdict TreeLin.tree_lin_check TreeLin.mk_event
+  Parse.parse Parse.parse_spec Parse.contains_wildcards Parse.normal_form Parse.presult_eqb Parse.norm.
